@@ -130,6 +130,116 @@ CLAIMS.update({
         technique="Coq proof over rational cores (incl. Cauchy-Schwarz) + differential correspondence with 60-digit closings"),
 })
 
+CLAIMS.update({
+    "C02": dict(
+        text=("PARTIAL BY NATURE. Theorems about an ownership state machine (cells owned by the object / memo caches / fresh "
+              "cells; handles; read, write-through-handle, run-method): if every accessor hands out a copy then for EVERY "
+              "history the object reports what it reported before; running a method never changes it; one sharing accessor "
+              "suffices to break it (refutation witness = the repaired dominators_of defect). That each REAL accessor copies "
+              "is established only by the correspondence: every enumerated accessor x every mutation route, constructor "
+              "inputs, and random read/write/run histories with bit-exact snapshots; the enumeration is checked against the "
+              "Coq model's size and against the public members of the real classes."),
+        design="§5 C02",
+        note=NOTE_COMMON + "Model: coq/Model/Alias.v. Known finding C02-pandas-string-index-buffer is reported as KNOWN-FINDING. "
+             "result.e_ / extra_ and private attributes are outside the property's list.",
+        technique="Coq proof over an ownership abstraction + differential history testing with bitwise snapshots"),
+    "C05": dict(
+        text=("PARTIAL. Theorems: every row-wise score follows its alternative under reordering (named pairs are a permutation); "
+              "ideal / anti-ideal / reference point do not depend on row order; weighted and signed-weighted sums do not "
+              "depend on criteria order (values, objectives, weights permuted together); equal scores (==) give equal dense "
+              "rankings and positive affine changes keep every ranking; multiplying weights by c>0 keeps WSM / RatioMOORA "
+              "rankings, multiplies ReferencePointMOORA scores by c, leaves TOPSIS closeness unchanged. Labels never enter a "
+              "kernel (by typing). TOPSIS distances under criteria permutation, WPM/FMF, MultiMOORA, ELECTRE and pipelines "
+              "are covered by the correspondence only: two presentations (rows, criteria, labels, weight multiplier) "
+              "compared by alternative name, exact regime exactly, float regime beyond the margin."),
+        design="§5 C05",
+        note=NOTE_COMMON + "Model: coq/Model/Agg.v; Theory/Invariance.v.",
+        technique="Coq proof (permutation / scaling invariance of the rational kernels) + two-presentation differential check"),
+    "C09": dict(
+        text=("Theorems: weak duality and SOUNDNESS of the executable certificate checker for max c.x, Ax<=b, x>=0 (an accepted "
+              "primal/dual pair proves feasibility and optimality) over Q; stage rows sum to one (or are all zero); second-"
+              "method score formula; values are credited by index. PARTIAL: optimality of what CBC returns is certified PER "
+              "CASE - an untrusted exact simplex proposes (x*, y*), the extracted proved checker accepts it, and the "
+              "implementation's stage (credited positionally) must be feasible and attain that certified optimum; the stage "
+              "LP construction (senses, default and user b) is the model's and is compared through the same evaluation."),
+        design="§5 C09",
+        note=NOTE_COMMON + "Model: coq/Model/Simus.v. CBC is an oracle; harness/simplex.py is untrusted (proposes certificates only).",
+        technique="Coq-verified LP certificate checker (weak duality) applied per stage + differential correspondence"),
+    "C14": dict(
+        text=("Theorems for ALL matrices / condition lists: the mask the implementation builds (columns looked up per written "
+              "condition) equals the specification 'every condition holds on the criterion it names'; survivors characterised "
+              "by label lookup; any permutation of the conditions gives the same result; any permutation of the criteria "
+              "(with the rows) gives the same survivors; a missing criterion raises iff not ignored (and is then the only "
+              "condition skipped); FilterNonDominated keeps exactly the alternatives nobody (strictly) dominates. "
+              "Findings.v refutes the unrepaired matrix-order pairing. Tie to /repo: all 9 filter classes + non-dominated, "
+              "every key order, absent criteria, both settings, survivors by label."),
+        design="§5 C14",
+        note=NOTE_COMMON + "Model: coq/Model/Filters.v; function filters use a fixed predicate palette mirrored in Coq.",
+        technique="Coq refinement proof (implementation-shaped mask = spec) + exhaustive key-order differential check"),
+    "C15": dict(
+        text=("PARTIAL. Theorems for EVERY source of filled values (the KNN / Iterative estimators enter as an arbitrary "
+              "function): shape kept, every observed cell keeps exactly its value, every gap gets a value; SimpleImputer: "
+              "observed cells unchanged, each gap gets the configured statistic of ITS OWN criterion, column-locality, mean "
+              "between the extremes. The values KNN/Iterative choose are scikit-learn's; parameter forwarding is checked "
+              "differentially (bitwise) against directly constructed scikit-learn estimators."),
+        design="§5 C15",
+        note=NOTE_COMMON + "Model: coq/Model/Impute.v (median / most-frequent with smallest-value tie-break executable).",
+        technique="Coq proof with the estimator as an arbitrary oracle + differential check incl. parameter forwarding"),
+    "C16": dict(
+        text=("Theorems (generic in the matrix / result types): evaluate = composition in order; suffix slice at every split "
+              "point; nested pipelines flatten (as a step and as the last step); one name per step; copy(**overrides) changes "
+              "exactly the overridden parameters and keeps the parameter set; rebuild from get_parameters is the identity. "
+              "PARTIAL: step-name uniqueness is proved under the explicit side condition that no listed name equals a "
+              "generated 'x_k' (and suffix injectivity); Findings.v shows the condition cannot be dropped (known finding). "
+              "Tie to /repo: random and nested pipelines vs manual composition bit-for-bit at every split; unique_names "
+              "exhaustively over a small alphabet; every introspected method class for copy / rebuild / overrides."),
+        design="§5 C16",
+        note=NOTE_COMMON + "Model: coq/Model/Pipeline.v. Known finding C16-unique-names-suffix-collision is reported as KNOWN-FINDING.",
+        technique="Coq proof (fold composition, name uniqueness under side condition) + differential check on real objects"),
+    "C17": dict(
+        text=("Theorems over the model of diff / equals / aequals / != for decision matrices, results and comparators: arrays of "
+              "different length compare as different (never an error) and a result of another length names 'values'; an object "
+              "equals its copy; exact equality is symmetric and implies tolerant equality for any rtol, atol >= 0; != is not ==; "
+              "unrelated types are different; for same-shape matrices a member is named exactly when it differs beyond "
+              "tolerance (one-member corollaries for weights, matrix, values); a shape change names every member. Tie to "
+              "/repo: pairs (identical, copy, one member below / at / above the exact dyadic tolerance boundary, lengths, "
+              "types), all operators in both directions and the testing.assert_* helpers."),
+        design="§5 C17",
+        note=NOTE_COMMON + "Model: coq/Model/Diff.v (finite values; array-valued extras).",
+        technique="Coq proof over a model of diff + exact-boundary differential correspondence"),
+    "C18": dict(
+        text=("Theorems for ALL rankings: the untied ranking is a permutation of 1..n, keeps every strict preference, breaks "
+              "ties by order of appearance and equals the original when there are no ties; a comparator cell depends on the "
+              "ranking only as a name->rank map (listing order irrelevant); diagonal values: distance 0, covariance = variance, "
+              "R2 = 1, cov(v,v) = var(v) (so self-correlation 1). Findings.v refutes the unrepaired argsort+1. Tie to /repo: "
+              "all dense rankings up to length 5 (thorough 7) + random to 40; comparators from rankings listed in different "
+              "orders, tables by label."),
+        design="§5 C18",
+        note=NOTE_COMMON + "Model: coq/Model/Untie.v.",
+        technique="Coq proof (counting definition of untie) + exhaustive small-scope and random differential check"),
+    "C19": dict(
+        text=("Theorems: a mutation changes exactly one row and keeps the shape; the mutated row is row + noise; the executable "
+              "checker run on every recorded mutation is sound (direction by objective, |change| <= bound, one strict change) "
+              "and accepts everything the implementation's construction can produce from draws in [0, bound]; worsening never "
+              "improves; the schedule has (n-1)*repeat runs, every non-best alternative exactly once per repetition; the "
+              "rejection loop never terminates when all gaps are zero (the known finding) and otherwise returns a non-zero "
+              "noise. Tie to /repo: a recording decision maker, all recorded matrices / noises / labels through the model's "
+              "bounds table, checker and schedule; equal seeds bit-identical; per-experiment time budget."),
+        design="§5 C19",
+        note=NOTE_COMMON + "Model: coq/Model/RRT.v; the uniform draws are inputs. Known finding C19-zero-gaps-never-terminates is reported as KNOWN-FINDING.",
+        technique="Coq proof (mutation checker soundness/completeness, schedule, termination condition) + recorded-experiment check"),
+    "C20": dict(
+        text=("PARTIAL BY NATURE. Theorems about the abstraction 'the state of a method object is its parameters': the output "
+              "for a probe matrix is the same at every position of every call sequence (also after failing calls), equal "
+              "parameters give equal behaviour, calls leave the object unchanged. That the real classes keep no other state "
+              "is established only by the correspondence: every introspected class (plus pipelines, user methods, filters, "
+              "randomised imputers) as one object over sequences of matrices of varying shape and criteria layout incl. "
+              "failing calls; probe outputs bit-identical to a fresh object's, __dict__ snapshot unchanged, a twin in lock-step."),
+        design="§5 C20",
+        note=NOTE_COMMON + "Model: coq/Model/Stateless.v. RankInvariantChecker (holds a Generator) is outside the property.",
+        technique="Coq frame theorem over 'state = parameters' + differential call-sequence testing with state snapshots"),
+})
+
 PENDING_REASON = "check not yet built in this session; planned as described in DESIGN.md §5 (no claim is made until it runs)"
 
 
